@@ -437,7 +437,7 @@ func c13Run(r *Run, l *Local, c c13Case) {
 			r.Violate("wrong-error-reason", "grammar/error", fmt.Sprintf("defective pattern %q rejected with Reason %q", truncate(c.Pattern, 300), ue.Reason), c)
 		}
 	}
-	if n != 1 {
+	if n < 1 { // several errors naming the same string are fine (one per defect); none is not
 		r.Violate("wrong-error-count", "grammar/error", fmt.Sprintf("defective pattern %q produced %d errors", truncate(c.Pattern, 300), n), c)
 	}
 }
